@@ -1,6 +1,7 @@
 import Setec.Model.Cli
 import Setec.Proofs.DB
 import Setec.Proofs.Crypto
+import Setec.Proofs.Base64
 /-!
 # C18 - secret bytes round-trip unchanged end to end, including through the CLI
 
@@ -30,6 +31,12 @@ theorem restart_preserves_bytes (kek dek : Nat) (kv : KV) (hs : Synced kv) (n : 
   refine ⟨kv.disk, open_fileOf kek dek kv.disk, ?_⟩
   have : kv.disk = kv.secrets := hs
   simp [this, KV.getVersion]
+
+/-- The text layer of every hop (database file, API requests and responses, cache): standard
+base64 with padding round-trips every byte string - empty, NULs, invalid UTF-8, any length.
+(The Lean codec is compared with encoding/base64 on every run.) -/
+theorem b64_roundtrip (bs : Bytes) : Base64.decode (Base64.encode bs) = some bs :=
+  Base64.decode_encode bs
 
 /-! ### the `setec put` text policy -/
 
